@@ -57,6 +57,8 @@ extern "C" {
     fn iorec_delay_add(cls: u32, kind: u32, when: u32, prob_ppm: u32, min_us: u32, max_us: u32);
     fn iorec_seed(s: u64);
     fn iorec_delays_done() -> u64;
+    fn iorec_short(ppm: u32, seed: u64);
+    fn iorec_shorts_done() -> u64;
 }
 
 #[cfg(not(feature = "shim"))]
@@ -73,6 +75,8 @@ mod nolink {
     pub unsafe fn iorec_delay_add(_: u32, _: u32, _: u32, _: u32, _: u32, _: u32) {}
     pub unsafe fn iorec_seed(_: u64) {}
     pub unsafe fn iorec_delays_done() -> u64 { 0 }
+    pub unsafe fn iorec_short(_: u32, _: u64) {}
+    pub unsafe fn iorec_shorts_done() -> u64 { 0 }
 }
 #[cfg(not(feature = "shim"))]
 use nolink::*;
@@ -128,6 +132,36 @@ pub fn delay_add(cls: u32, kind: u32, when: u32, prob_ppm: u32, min_us: u32, max
 }
 pub fn seed(s: u64) {
     unsafe { iorec_seed(s) }
+}
+/// From now on a write of two or more bytes to a watched file completes only partly with probability
+/// `ppm` / 1e6 (a legal short count; `write_all` comes back with the rest). 0 switches it off.
+pub fn short_writes(ppm: u32, seed: u64) {
+    unsafe { iorec_short(ppm, seed) }
+}
+/// Environment for a whole episode: watch `dir` without keeping bytes and complete 30% of the larger
+/// writes only partly. Returned guard switches everything off again and drops the log.
+pub struct ShortEnv(u64);
+pub fn short_env(dir: &std::path::Path, seed: u64) -> ShortEnv {
+    log_reset();
+    record_data(false);
+    watch(Some(dir));
+    short_writes(300_000, seed | 1);
+    ShortEnv(shorts_done())
+}
+impl ShortEnv {
+    pub fn done(&self) -> u64 {
+        shorts_done() - self.0
+    }
+}
+impl Drop for ShortEnv {
+    fn drop(&mut self) {
+        short_writes(0, 0);
+        watch(None);
+        log_reset();
+    }
+}
+pub fn shorts_done() -> u64 {
+    unsafe { iorec_shorts_done() }
 }
 pub fn delays_done() -> u64 {
     unsafe { iorec_delays_done() }
